@@ -38,13 +38,17 @@ type c42E2ECase struct {
 
 func genC42E2E(t *rapid.T) c42E2ECase {
 	var c c42E2ECase
-	if rapid.IntRange(0, 3).Draw(t, "known") == 0 {
-		// deterministic re-demonstration of the recorded finding
-		c.Base = rapid.SampledFrom([]string{"ab/client-10/e", "gamm/pool-1", "lp/07-tendermint-0/share/x", "a/channel-7"}).Draw(t, "known-base")
-	} else {
-		c.Base, c.Excluded = genBase(t, "base", false)
-	}
 	c.Recv = rapid.Bool().Draw(t, "recv")
+	switch {
+	case rapid.IntRange(0, 3).Draw(t, "pinned") == 0:
+		// pinned shapes: send side = the recorded finding (re-demonstrated), receive side = the
+		// shapes in which the receive parser used to disagree with ICS-20 (must pass when fixed)
+		c.Base = rapid.SampledFrom([]string{"ab/client-10/e", "gamm/pool-1", "lp/07-tendermint-0/share/x", "a/channel-7"}).Draw(t, "pinned-base")
+	case c.Recv:
+		c.Base, _ = genBase(t, "base", keepHopLike)
+	default:
+		c.Base, c.Excluded = genBase(t, "base", repairHopLikeSend)
+	}
 	c.Over = rapid.Bool().Draw(t, "over")
 	c.Pct = rapid.SampledFrom([]int64{1, 5, 10, 25, 40}).Draw(t, "pct")
 	c.Supply = rapid.SampledFrom([]string{"100000", "1000000000", "1000000000000000000000000"}).Draw(t, "supply")
@@ -61,8 +65,11 @@ func runC42E2E(outer *testing.T) func(t rapid.TB, c c42E2ECase, rec *vx.Case) {
 			return
 		}
 		sig := func(generic string) string {
-			if hopLikeBase(c.Base) {
+			switch {
+			case !c.Recv && sendKnownClass(c.Base):
 				return sigHopLike
+			case c.Recv && hopLikeBase(c.Base):
+				return sigRecvParser
 			}
 			return generic
 		}
@@ -119,7 +126,11 @@ func runC42E2E(outer *testing.T) func(t rapid.TB, c c42E2ECase, rec *vx.Case) {
 			}
 		}
 		if amt.GT(supply.Sub(first)) {
-			vx.Harnessf("generator: amount %s above the sender's funds", amt)
+			// the denom already had supply on the chain (e.g. the bond denom): the quota is a share of
+			// a channel value this case did not mint; not the situation this test is about
+			rec.Add("amount_above_funds", 1)
+			rec.Class("preexisting-supply")
+			return
 		}
 
 		e1 := w.Balance(0, escA, movedOnA).Amount
@@ -166,7 +177,7 @@ func runC42E2E(outer *testing.T) func(t rapid.TB, c c42E2ECase, rec *vx.Case) {
 func TestC42E2E(t *testing.T) {
 	vx.Check(t, vx.Prop[c42E2ECase]{
 		ID: "C42",
-		Rule: "fresh 2-chain world; base denom from the C33 generator (3 in 4; recorded class repaired out) or from the recorded hop-like list (1 in 4); unlimited first transfer identifies the (denom, channel) ICS-20 moves on each side; " +
+		Rule: "fresh 2-chain world; base denom from the C33 generator (3 in 4; only the recorded send-side class repaired out, and only when the quota is on the sending chain) or from a pinned hop-like list (1 in 4); unlimited first transfer identifies the (denom, channel) ICS-20 moves on each side; " +
 			"AddRateLimit of 1..40% there; then a transfer of 2x+1 / 0.5x the threshold through real txs and relays; non-trivial = the limited transfer was attempted; distinct by full case",
 		MinNTFrac: 0.5,
 		Gen:       genC42E2E,
